@@ -7,7 +7,7 @@
    control nodes and every notion of halting: nothing observable can be dropped, duplicated or reordered. *)
 From Coq Require Import ZArith List String Lia.
 From Verif Require Import Base.Word256 Base.PyInt C15.Syntax C15.GenUtils C15.Optimizer C15.FoldSound C15.OptSound
-  C15.OptTree C15.OptTreeSound C15.Bytes C15.MergeSound.
+  C15.OptTree C15.OptTreeSound C15.Bytes C15.MergeSound C15.MemInst.
 Import ListNotations.
 Open Scope Z_scope.
 
@@ -87,10 +87,9 @@ Theorem optimize_sound :
 Proof. intros M OK MO cancun e e' W H. eapply optimize_sound_all; eauto. Qed.
 Print Assumptions optimize_sound.
 
-(* SemOk is satisfiable *)
-Example semok_inhabited : SemOk {| St := unit; Hl := unit; getvar := fun _ _ => 0;
-                                   sem_K := fun _ _ s => Norm 0 s; sem_revert := fun s => s; sem_invalid := fun s => s |}.
-Proof. constructor; cbn; intros; [inversion H; unfold W; lia | reflexivity]. Qed.
+(* the hypotheses are satisfiable: a concrete state space with a byte memory and big-endian words (MemInst.v) *)
+Example semok_memok_inhabited : SemOk InstSem /\ inhabited (MemOk InstSem).
+Proof. split; [exact InstSemOk | exact (inhabits InstMemOk)]. Qed.
 
 (* non-vacuity: rewrites fire at the boundaries, the rollback does happen, whole trees are rewritten *)
 Example opt_binop_nonvacuous :
